@@ -940,6 +940,15 @@ fn cycles() -> Vec<Value> {
         "let v = %v\nrule r { %v exists }\n",
         "let v = %w\nlet w = %v\nrule r { %v exists }\n",
         "rule r {\n  let v = %v\n  %v exists\n}\n",
+        // variables defined by function calls that refer to themselves / to each other, at every scope
+        "let v = count(%v)\nrule r { %v == 1 }\n",
+        "rule r {\n  let v = count(%v)\n  %v == 1\n}\n",
+        "rule r {\n  let v = to_lower(%w)\n  let w = to_upper(%v)\n  %v == \"x\"\n}\n",
+        "let v = to_lower(%w)\nlet w = to_upper(%v)\nrule r { %v == \"x\" }\n",
+        "rule r {\n  when a exists {\n    let v = join(%v, \",\")\n    %v exists\n  }\n}\n",
+        "rule r {\n  this {\n    let v = parse_int(%w)\n    let w = parse_string(%v)\n    %w exists\n  }\n}\n",
+        "rule r {\n  let v = count(%w)\n  let w = a[ b == %v ]\n  %v == 0\n}\n",
+        "T {\n  let v = to_upper(%v)\n  %v exists\n}\n",
     ];
     for t in texts {
         let class = if t.contains("rule p(") { "reference-cycle-parameterised-rule" } else if t.contains("let v") { "reference-cycle-variable" } else { "reference-cycle-named-rule" };
